@@ -140,6 +140,8 @@ class EditRun:
                     pl.post_op(op, ctx, out)
                 except Violation as v:
                     self.viol = {'kind': v.kind, 'step': step, 'detail': v.detail, 'op': op, 'site': self.site_full(op)}
+                    if hasattr(pl, 'extra_sig'):
+                        self.viol.update(pl.extra_sig())
                     break
                 except StopRun:
                     self.stopped = True
